@@ -50,7 +50,10 @@ def body(c):
         "(k = 4..12: numbers with many digits / leading zeros, words, "
         "[keywords], comment and header lines, YAML keys and scalars), "
         "frequency entries made equal to their neighbour (same text or an "
-        "equivalent spelling), swapped, zero or negative.  Each input is one event validated by "
+        "equivalent spelling), swapped, zero or negative, header keywords "
+        "re-stated later in the header with a different argument or moved "
+        "across their dependants (optionally with a data section rewritten "
+        "for the new value).  Each input is one event validated by "
         "LoadContractTrace: Fail(errno class, one matching one-line "
         "callback, no object / destination usable) or Ok(self-consistent: "
         "dimensions fit the type, ascending calibration frequencies, all "
